@@ -310,29 +310,27 @@ theorem C01_fulloe_no_mint_at_zero (s : OE.State) (m : OE.Minter) (hm : s.minter
 Projection `OE.limitsOf` (kind, admin, per-address limit, num_tokens, factory maximum, attached whitelist with its kind, the
 five counter maps, tokens received); translation `OE.limitsOp` (the `View`, `started`, `pre`, `oldActive`, `newActive`
 witnesses of the aspect ops are computed from the composite state); one-step simulation `OE.limits_sim_ok/_err`
-(Lemmas/OpenEditionFullLimits.lean).  The aspect model holds the factory's `max_per_address_limit` and the kind of the attached
-whitelist contract constant during a case, so the run-level statements are about `StableRun`s: histories in which governance
-does not change that one parameter and the interface does not rebind the attached whitelist's address to another kind. -/
+(Lemmas/OpenEditionFullLimits.lean).  Governance moving `max_per_address_limit` is the aspect op `govern`.  The aspect model holds the
+kind of the attached whitelist contract constant during a case, so the run-level statements are about `StableRun`s: histories in
+which the interface does not rebind the attached whitelist's address to another kind (only `wlEnv` can; every message of the
+family, `sudo UpdateParams` included, is `EnvStable`: `envStable_of_not_env`). -/
 
 namespace OE
 
-/-- messages other than the two environment changes never move the parameters the aspect model holds constant -/
+/-- messages other than a whitelist-interface change never move the binding the aspect model holds constant (governance moving
+`max_per_address_limit` is the aspect op `govern`) -/
 theorem envStable_of_not_env (s : State) (op : Op)
-    (hop : match op with | .sudoParams _ => False | .wlEnv _ _ => False | _ => True) : EnvStable s op := by
+    (hop : match op with | .wlEnv _ _ => False | _ => True) : EnvStable s op := by
   intro m _
   rcases step'_cases s op with ⟨s', hok, hs'⟩ | ⟨_, hs'⟩
   · rw [hs']
-    obtain ⟨_, _, hp, hw, _⟩ := step_frame hok
-    have hp' : s'.params = s.params := by
-      rcases hp with ⟨u, rfl⟩ | hp
-      · exact absurd hop (by simp)
-      · exact hp
+    obtain ⟨_, _, _, hw, _⟩ := step_frame hok
     have hw' : s'.wls = s.wls := by
       rcases hw with ⟨k, i, rfl⟩ | hw
       · exact absurd hop (by simp)
       · exact hw
-    exact ⟨by rw [hp'], wlBinding_congr hw' rfl⟩
-  · rw [hs']; exact ⟨rfl, rfl⟩
+    exact wlBinding_congr hw' rfl
+  · rw [hs']
 
 /-- the composite history as an aspect-model history -/
 def limitsOps (s : State) : List Op → List MintLimits.Op
@@ -897,14 +895,12 @@ theorem C04_fulloe_ended_is_final (s : OE.State) (m : OE.Minter) (hm : s.minter 
 
 Projection `OE.priceOf` onto the whitelist-free part of `PriceRules.World` with `oe := true` (clock, factory minimum and airdrop
 price, public price, start time, END time, "has a token cap"; no discount); translation `OE.priceOps` (forward simulation with
-stuttering).  `UpdateEndTime` has no op in the aspect model (its `stop` is immutable), so the simulation is stated for every
-message except that one (`OE.NoEndUpdate`); `OE.price_updateEnd` says what it does to the projection. -/
+stuttering) for EVERY message of the family (`UpdateEndTime` ↦ `PriceRules.Op.updateEnd`). -/
 
 namespace OE
 
-/-- an ACCEPTED composite message other than `UpdateEndTime` acts on the projection as the translated aspect ops -/
-theorem price_sim_ok {s s' : State} {m : Minter} {op : Op} (hm : s.minter = some m) (h : step s op = .ok s')
-    (hne : NoEndUpdate op) :
+/-- an ACCEPTED composite message acts on the projection as the translated aspect ops (all of which are accepted) -/
+theorem price_sim_ok {s s' : State} {m : Minter} {op : Op} (hm : s.minter = some m) (h : step s op = .ok s') :
     ∃ m', s'.minter = some m' ∧ PriceRules.run (priceOf s m) (priceOps s op) = priceOf s' m' := by
   have hacc := accepted_of_ok h
   cases op with
@@ -961,7 +957,13 @@ theorem price_sim_ok {s s' : State} {m : Minter} {op : Op} (hm : s.minter = some
     refine ⟨_, rfl, ?_⟩
     simp only [priceOps, hacc, if_true, price_run_one]
     exact price_step'_ok (price_updateStart hf)
-  | updateEndTime sender funds t => exact absurd rfl (hne sender funds t)
+  | updateEndTime sender funds t =>
+    simp only [step] at h
+    obtain ⟨m0, m', hm0, hf, rfl⟩ := withMinter_ok h
+    rw [hm] at hm0; cases hm0
+    refine ⟨_, rfl, ?_⟩
+    simp only [priceOps, hacc, if_true, price_run_one]
+    exact price_step'_ok (price_updateEnd hf)
   | setWhitelist sender funds wl valid =>
     simp only [step] at h
     obtain ⟨m0, m', hm0, hf, rfl⟩ := withMinter_ok h
@@ -1032,10 +1034,10 @@ theorem price_sim_ok {s s' : State} {m : Minter} {op : Op} (hm : s.minter = some
     exact ⟨_, rfl, by simp [priceOps, hacc, PriceRules.run]; rfl⟩
 
 /-- one-step simulation, both outcomes -/
-theorem price_sim (s : State) (m : Minter) (hm : s.minter = some m) (op : Op) (hne : NoEndUpdate op) :
+theorem price_sim (s : State) (m : Minter) (hm : s.minter = some m) (op : Op) :
     ∃ m', (step' s op).minter = some m' ∧ PriceRules.run (priceOf s m) (priceOps s op) = priceOf (step' s op) m' := by
   rcases step'_cases s op with ⟨s', hok, hs'⟩ | ⟨⟨e, herr⟩, hs'⟩
-  · obtain ⟨m', hm', heq⟩ := price_sim_ok hm hok hne
+  · obtain ⟨m', hm', heq⟩ := price_sim_ok hm hok
     rw [hs']; exact ⟨m', hm', heq⟩
   · rw [hs']
     exact ⟨m, hm, by simp [priceOps, accepted_of_err herr, PriceRules.run]⟩
@@ -1048,60 +1050,25 @@ theorem price_run_append (w : PriceRules.World) (a b : List PriceRules.Op) :
     PriceRules.run w (a ++ b) = PriceRules.run (PriceRules.run w a) b := by
   simp [PriceRules.run, List.foldl_append]
 
-/-- **lift to runs** (histories without `UpdateEndTime`) -/
-theorem price_run (s : State) (m : Minter) (hm : s.minter = some m) (ops : List Op) (hne : ∀ op ∈ ops, NoEndUpdate op) :
+/-- **lift to runs** -/
+theorem price_run (s : State) (m : Minter) (hm : s.minter = some m) (ops : List Op) :
     ∃ m', (run s ops).minter = some m' ∧ PriceRules.run (priceOf s m) (priceRunOps s ops) = priceOf (run s ops) m' := by
   induction ops generalizing s m with
   | nil => exact ⟨m, hm, rfl⟩
   | cons op ops ih =>
-    obtain ⟨m1, hm1, heq⟩ := price_sim s m hm op (hne op (List.mem_cons_self ..))
-    obtain ⟨m', hm', hrun⟩ := ih (step' s op) m1 hm1 (fun o ho => hne o (List.mem_cons_of_mem _ ho))
+    obtain ⟨m1, hm1, heq⟩ := price_sim s m hm op
+    obtain ⟨m', hm', hrun⟩ := ih (step' s op) m1 hm1
     refine ⟨m', by rw [run_cons]; exact hm', ?_⟩
     simp only [priceRunOps]
     rw [price_run_append, heq, hrun, run_cons]
 
-/-- what the aspect model's `create` checks for an open edition without a token cap -/
-theorem aspect_create_uncapped {w w' : PriceRules.World} {c : Addr} {price : Coin} {start : Nat} {stop : Option Nat}
-    {wl : Option Nat} (hoe : w.v.oe = true) (h : PriceRules.step w (.create c price start stop false wl) = .ok w') :
-    price.amount ≠ 0 ∧ w.fac.airdrop.amount ≠ 0 ∧ stop.isSome = true := by
-  simp only [PriceRules.step, PriceRules.createMinter] at h
-  split at h
-  · rename_i hc
-    simp only [PriceRules.createOk, hoe, if_true, Bool.false_or, Bool.and_eq_true, decide_eq_true_eq] at hc
-    obtain ⟨⟨_, ⟨⟨⟨h1, h2⟩, h3⟩, _⟩, _⟩, _⟩ := hc
-    exact ⟨h1, h2, h3⟩
-  · cases h
-
-/-- what the aspect model's `updateMintPrice` checks for an open edition beyond the family-independent rules -/
-theorem aspect_ump_oe {w w' : PriceRules.World} {s : Addr} {paid : Bool} {p : Nat} (hoe : w.v.oe = true)
-    (h : PriceRules.step w (.updateMintPrice s paid p) = .ok w') :
-    ∃ m, w.m = some m ∧ (∀ e, m.stop = some e → w.now < e) ∧ (m.hasCap = false → p ≠ 0) := by
-  simp only [PriceRules.step, PriceRules.updateMintPrice] at h
-  split at h
-  · cases h
-  · rename_i m hm
-    simp only [hoe, Bool.true_and] at h
-    refine ⟨m, hm, ?_, ?_⟩
-    · intro e he
-      rw [he] at h
-      by_cases hl : e ≤ w.now
-      · exfalso; simp [hl] at h; split at h <;> cases h
-      · omega
-    · intro hcap hp
-      exfalso
-      subst hp
-      simp [hcap] at h
-      repeat' (split at h)
-      all_goals cases h
-
 end OE
 
-/-- the C07 simulation: one composite step (any message but `UpdateEndTime`, which the aspect model lacks) = the translated
-aspect ops on the projection -/
-theorem C07_fulloe_refines (s : OE.State) (m : OE.Minter) (hm : s.minter = some m) (op : OE.Op) (hne : OE.NoEndUpdate op) :
+/-- the C07 simulation: one composite step (ANY message) = the translated aspect ops on the projection -/
+theorem C07_fulloe_refines (s : OE.State) (m : OE.Minter) (hm : s.minter = some m) (op : OE.Op) :
     ∃ m', (OE.step' s op).minter = some m' ∧
       PriceRules.run (OE.priceOf s m) (OE.priceOps s op) = OE.priceOf (OE.step' s op) m' :=
-  OE.price_sim s m hm op hne
+  OE.price_sim s m hm op
 
 /-- Clause 1 (floor) at creation, plus the open-edition creation rules: an accepted `CreateMinter` has its price in the denom
 of the factory minimum and at least that minimum; the start lies strictly in the future; and WITHOUT a token cap the price and
@@ -1113,18 +1080,13 @@ theorem C07_fulloe_create_rules (s s' : OE.State) (sender : Addr) (funds : List 
     (msg.numTokens = none → msg.mintPrice.amount ≠ 0 ∧ s.params.airdropMintPrice.amount ≠ 0 ∧ msg.endTime.isSome = true) ∧
     ∃ m', s'.minter = some m' ∧ m'.mintPrice = msg.mintPrice := by
   obtain ⟨m', hm', hstep⟩ := OE.price_create h
-  have hfloor := C07_floor (OE.priceInit s) _ _ msg.mintPrice hstep rfl
-  obtain ⟨hc, _⟩ := C07_floor_effect (OE.priceInit s) _ _ hstep
-  obtain ⟨m2, hm2, hp, _⟩ := hc _ _ _ _ _ _ rfl
+  obtain ⟨hfut, _, hunc, hamt, hden, m2, hm2, hp, _⟩ :=
+    C07_oe_create_rules (OE.priceInit s) _ msg.creator msg.mintPrice msg.startTime msg.endTime msg.numTokens.isSome none rfl hstep
   simp only [OE.priceOf, Option.some.injEq] at hm2
   subst hm2
-  have hstep' := hstep
-  simp only [PriceRules.step] at hstep'
-  obtain ⟨_, hden, _, _, hfut, _⟩ := LP.create_ok hstep'
-  refine ⟨hfloor, hden, hfut rfl, ?_, m', hm', hp⟩
+  refine ⟨hamt, hden, hfut, ?_, m', hm', hp⟩
   intro hn
-  rw [hn] at hstep
-  exact OE.aspect_create_uncapped rfl hstep
+  exact hunc (by rw [hn]; rfl)
 
 /-- Clause 1 (floor) for `UpdateMintPrice`: an accepted one sets a price at least the factory minimum in force at that moment -/
 theorem C07_fulloe_floor (s s' : OE.State) (m : OE.Minter) (hm : s.minter = some m) (sender : Addr) (funds : List Coin) (p : Nat)
@@ -1169,10 +1131,47 @@ theorem C07_fulloe_update_rules (s s' : OE.State) (m : OE.Minter) (hm : s.minter
   simp only [OE.step] at h
   obtain ⟨m0, m', hm0, hf, rfl⟩ := OE.withMinter_ok h
   rw [hm] at hm0; cases hm0
-  obtain ⟨m1, hm1, hend, hz⟩ := OE.aspect_ump_oe (w := OE.priceOf s m) rfl (OE.price_updateMintPrice hf)
+  obtain ⟨m1, m2, hm1, _, hend, hz, _⟩ :=
+    C07_oe_update_rules (OE.priceOf s m) _ sender _ p rfl (OE.price_updateMintPrice hf)
   simp only [OE.priceOf, Option.some.injEq] at hm1
   subst hm1
   exact ⟨hend, fun hn => hz (by simp [OE.priceMinter, hn])⟩
+
+/-- `UpdateEndTime`: only the admin, only on an edition that has an end time which has not been reached, not into the past and
+not before the start; nothing but the end time changes -/
+theorem C07_fulloe_end_rules (s s' : OE.State) (m : OE.Minter) (hm : s.minter = some m) (sender : Addr)
+    (funds : List Coin) (t : Nat) (h : OE.step s (.updateEndTime sender funds t) = .ok s') :
+    ∃ e, sender = m.admin ∧ funds = [] ∧ m.endTime = some e ∧ s.now < e ∧ s.now ≤ t ∧ m.startTime ≤ t ∧
+      s'.minter = some { m with endTime := some t } := by
+  simp only [OE.step] at h
+  obtain ⟨m0, m', hm0, hf, rfl⟩ := OE.withMinter_ok h
+  rw [hm] at hm0; cases hm0
+  obtain ⟨m1, m2, e, hm1, _, _, hadm, hpaid, he, h1, h2, h3, _⟩ :=
+    C07_oe_end_rules (OE.priceOf s m) _ sender _ t (OE.price_updateEnd hf)
+  simp only [OE.priceOf, Option.some.injEq] at hm1
+  subst hm1
+  obtain ⟨_, _, _, _, _, _, _, hm'⟩ := OE.updateEndTime_ok hf
+  refine ⟨e, hadm, ?_, he, h1, h2, h3, by rw [hm']⟩
+  cases funds with
+  | nil => rfl
+  | cons c cs => simp at hpaid
+
+/-- an edition without a token cap never has price zero: from creation, after ANY composite history (every message kind) -/
+theorem C07_fulloe_uncapped_never_free (s s1 : OE.State) (sender : Addr) (funds : List Coin) (msg : OE.CreateMsg)
+    (w : OE.CreateWit) (hc : OE.step s (.create sender funds msg w) = .ok s1) (ops : List OE.Op) (m : OE.Minter)
+    (hm : (OE.run s1 ops).minter = some m) (hcap : m.numTokens = none) : m.mintPrice.amount ≠ 0 := by
+  obtain ⟨m1, hm1, hstep⟩ := OE.price_create hc
+  obtain ⟨m', hm', heq⟩ := OE.price_run s1 m1 hm1 ops
+  rw [hm] at hm'; cases hm'
+  have hrun : PriceRules.run (PriceRules.init OE.priceVariant s.now (OE.priceFactory s.params))
+      (.create msg.creator msg.mintPrice msg.startTime msg.endTime msg.numTokens.isSome none :: OE.priceRunOps s1 ops) =
+      OE.priceOf (OE.run s1 ops) m := by
+    have h0 : PriceRules.init OE.priceVariant s.now (OE.priceFactory s.params) = OE.priceInit s := rfl
+    rw [h0]
+    show PriceRules.run (PriceRules.step' (OE.priceInit s) _) _ = _
+    rw [OE.price_step'_ok hstep, heq]
+  exact C07_oe_uncapped_never_free OE.priceVariant rfl s.now (OE.priceFactory s.params) _ (OE.priceMinter m)
+    (by rw [hrun]; rfl) (by simp [OE.priceMinter, hcap])
 
 /-! ## C19 — trading start time
 
